@@ -204,6 +204,8 @@ def next_item(ip, it, seq_term, fr, idx_name, inv, k):
     if isinstance(it, VSeq):
         i_t = fr.vars[idx_name].term
         st.assume(i_t < z3.Length(seq_term))
+        # a theorem of sequences the solvers do not find by themselves: s[0:i+1] == s[0:i] ++ [s[i]]
+        st.assume(z3.SubSeq(seq_term, 0, i_t + 1) == z3.Concat(z3.SubSeq(seq_term, 0, i_t), z3.Unit(seq_term[i_t])))
         return wrap(it.elem, seq_term[i_t]) if it.elem[0] != "obj" else VObj(it.elem[1], seq_term[i_t])
     if isinstance(it, VIter) and isinstance(it.base, VMap):
         m = it.base
